@@ -6,11 +6,14 @@
    finite list of awaits (yield, timer, signal emission), object_server().at, .remove and .interface lookups; the burst
    may mix method calls (&self / &mut self, spawn on / off), Properties.Get / GetAll / Set, Introspect.
    [no_deadlock calls] := from every state reachable under any scheduler, some step is enabled or every task has
-   finished and nothing is left to arrive.  The FAITHFUL model refutes the full statement: Properties::get / set /
-   get_all (and Introspectable::introspect) keep the ROOT READ guard while they wait for the interface lock and while
-   the property handler runs, and at / remove ask for the ROOT WRITE lock.  So the full statement is kept as
-   [C30_full_statement], refuted by witnesses, and proved outside the decidable class [Known_C30]
-   (= the code paths of the burst do not respect one lock order, C29/Safe.v).
+   finished and nothing is left to arrive.
+   The model follows /repo d9501501: Properties::get / set / get_all drop the root read guard right after the lookup.
+   With that, method AND property handlers that await / register / remove / emit never deadlock
+   (C30_nodeadlock_handlers).  What the faithful model still refutes: Introspectable::introspect keeps the ROOT READ
+   guard while it read-locks the interfaces of the node, and at / remove ask for the ROOT WRITE lock — so the full
+   statement (any kind of call in the burst) is kept as [C30_full_statement], refuted by witnesses, and proved outside
+   the decidable class [Known_C30] (= the code paths of the burst do not respect one lock order, C29/Safe.v), which
+   now needs Introspect traffic or interface() lookups (C30_known_needs_introspect_or_lookup).
 
    Second clause (start-up model, C30/Model.v): [cfg] says whether the object server was set up by the builder
    (serve_at) or on demand, and whether the peer waits until the dispatch task has subscribed.  A call read by the
@@ -20,52 +23,21 @@ From ZV Require Import Base.Bytes C29.Model C29.Spec C29.Steps C29.Exec C29.Judg
 
 (* ------------------------------- first clause ------------------------------- *)
 
-(* method handlers (spawn on or off, &self or &mut self) that await, register, remove, emit — in a burst of method
-   calls — never deadlock: for all scripts, all bursts, all schedules *)
+(* method and property handlers (getters, &mut and &self setters; interfaces with spawning on or off) that await,
+   register, remove, emit — in a burst of method calls and Properties.Get / GetAll / Set — never deadlock:
+   for all scripts, all bursts, all schedules *)
+Theorem C30_nodeadlock_handlers : forall (calls : list call),
+  handlers_only calls = true ->
+  forall tr s, reach calls tr s -> (exists lb s', step lb s = Some s') \/ all_done s.
+Proof. exact nodeadlock_handlers. Qed.
+Print Assumptions C30_nodeadlock_handlers.
+
+(* the special case of bursts of method calls only *)
 Theorem C30_nodeadlock_methods : forall (calls : list call),
   methods_only calls = true ->
   forall tr s, reach calls tr s -> (exists lb s', step lb s = Some s') \/ all_done s.
 Proof. exact nodeadlock_methods. Qed.
 Print Assumptions C30_nodeadlock_methods.
-
-(* the full statement (any kind of call, handler scripts over the operations the text names) is false of this tree *)
-Theorem C30_handlers_refuted : ~ C30_full_statement.
-Proof. exact full_refuted. Qed.
-Print Assumptions C30_handlers_refuted.
-
-(* the witnesses: handler events observed up to the deadlock; a run that ends with nothing enabled, calls unfinished
-   and no reply sent.  (1) a &mut property setter that registers an object, (2) a getter that removes one,
-   (3) a METHOD handler that registers an object while a Properties.Get on the same interface is in flight,
-   (4) the same with &self methods and a pending writer, (5) the same against Introspect *)
-Theorem C30_setter_at_refuted :
-  exists tr s, reach w_setter tr s /\ filter is_soe (log s) = [EvS 0] /\ stuck s /\ ~ all_done s /\
-               forall c, In c w_setter -> count_ev (EvR (c_id c)) (log s) = 0.
-Proof. exact w_setter_dead. Qed.
-Print Assumptions C30_setter_at_refuted.
-
-Theorem C30_getter_remove_refuted :
-  exists tr s, reach w_getter tr s /\ filter is_soe (log s) = [EvS 0] /\ stuck s /\ ~ all_done s /\
-               forall c, In c w_getter -> count_ev (EvR (c_id c)) (log s) = 0.
-Proof. exact w_getter_dead. Qed.
-Print Assumptions C30_getter_remove_refuted.
-
-Theorem C30_method_vs_get_refuted :
-  exists tr s, reach w_method tr s /\ filter is_soe (log s) = [EvS 0; EvO 0 0] /\ stuck s /\ ~ all_done s /\
-               forall c, In c w_method -> count_ev (EvR (c_id c)) (log s) = 0.
-Proof. exact w_method_dead. Qed.
-Print Assumptions C30_method_vs_get_refuted.
-
-Theorem C30_method_ref_vs_get_refuted :
-  exists tr s, reach w_method_ref tr s /\ filter is_soe (log s) = [EvS 0; EvO 0 0] /\ stuck s /\ ~ all_done s /\
-               forall c, In c w_method_ref -> count_ev (EvR (c_id c)) (log s) = 0.
-Proof. exact w_method_ref_dead. Qed.
-Print Assumptions C30_method_ref_vs_get_refuted.
-
-Theorem C30_method_vs_introspect_refuted :
-  exists tr s, reach w_introspect tr s /\ filter is_soe (log s) = [EvS 0; EvO 0 0] /\ stuck s /\ ~ all_done s /\
-               forall c, In c w_introspect -> count_ev (EvR (c_id c)) (log s) = 0.
-Proof. exact w_introspect_dead. Qed.
-Print Assumptions C30_method_vs_introspect_refuted.
 
 (* outside the known class there is no deadlock: any kinds of calls, any scripts (lookups included), any schedule *)
 Theorem C30_nodeadlock_partial : forall (calls : list call),
@@ -73,6 +45,39 @@ Theorem C30_nodeadlock_partial : forall (calls : list call),
   forall tr s, reach calls tr s -> (exists lb s', step lb s = Some s') \/ all_done s.
 Proof. exact nodeadlock_partial. Qed.
 Print Assumptions C30_nodeadlock_partial.
+
+(* the known class is small: a burst in it contains an Introspect call or an object_server().interface() lookup *)
+Theorem C30_known_needs_introspect_or_lookup : forall (calls : list call),
+  Known_C30 calls = true -> has_introspect calls = true \/ has_lookup calls = true.
+Proof. exact known_needs_introspect_or_lookup. Qed.
+Print Assumptions C30_known_needs_introspect_or_lookup.
+
+(* the full statement (ANY kind of call in the burst, handler scripts over the operations the text names) is still
+   false of this tree *)
+Theorem C30_full_refuted : ~ C30_full_statement.
+Proof. exact full_refuted. Qed.
+Print Assumptions C30_full_refuted.
+
+(* the witnesses: handler events observed up to the deadlock; a run that ends with nothing enabled, calls unfinished
+   and no reply sent.  (1) a METHOD handler (&mut self) that registers an object while Introspect walks the same node,
+   (2) the same with a property setter as the handler, (3) with &self methods and a pending writer *)
+Theorem C30_method_vs_introspect_refuted :
+  exists tr s, reach w_introspect tr s /\ filter is_soe (log s) = [EvS 0; EvO 0 0] /\ stuck s /\ ~ all_done s /\
+               forall c, In c w_introspect -> count_ev (EvR (c_id c)) (log s) = 0.
+Proof. exact w_introspect_dead. Qed.
+Print Assumptions C30_method_vs_introspect_refuted.
+
+Theorem C30_setter_vs_introspect_refuted :
+  exists tr s, reach w_setter_introspect tr s /\ filter is_soe (log s) = [EvS 0; EvO 0 0] /\ stuck s /\ ~ all_done s /\
+               forall c, In c w_setter_introspect -> count_ev (EvR (c_id c)) (log s) = 0.
+Proof. exact w_setter_introspect_dead. Qed.
+Print Assumptions C30_setter_vs_introspect_refuted.
+
+Theorem C30_method_ref_vs_introspect_refuted :
+  exists tr s, reach w_ref_introspect tr s /\ filter is_soe (log s) = [EvS 0; EvO 0 0] /\ stuck s /\ ~ all_done s /\
+               forall c, In c w_ref_introspect -> count_ev (EvR (c_id c)) (log s) = 0.
+Proof. exact w_ref_introspect_dead. Qed.
+Print Assumptions C30_method_ref_vs_introspect_refuted.
 
 (* ------------------------------- second clause ------------------------------- *)
 
